@@ -431,7 +431,7 @@ func runC18(c *Ctx) {
 				return false
 			}
 			fl := fieldOf(u.X)
-			return fl != nil && (fl.Name() == "handler" || fl.Name() == "Handler")
+			return fl != nil && (vname(fl) == "handler" || vname(fl) == "Handler")
 		}
 		isConnectedArg := func(ev *Ev) bool {
 			return len(ev.Args) == 1 && isNamed(unwrap(ev.Args[0].V).Type(), "client", "Connected")
